@@ -5,13 +5,13 @@ go 1.26.8
 require (
 	github.com/c2FmZQ/ech v0.3.6
 	github.com/c2FmZQ/ech/publish v0.0.0
+	golang.org/x/crypto v0.40.0
 )
 
 require (
 	github.com/hashicorp/go-cleanhttp v0.5.2 // indirect
 	github.com/hashicorp/go-retryablehttp v0.7.8 // indirect
 	github.com/hashicorp/golang-lru/v2 v2.0.7 // indirect
-	golang.org/x/crypto v0.40.0 // indirect
 	golang.org/x/sys v0.34.0 // indirect
 )
 
